@@ -73,27 +73,27 @@ CHECKS.update({
   note="Memory refusals under forced fusion are counted as declined (C04). Quick tier runs a deterministic partition of the program set (stated in evidence)."),
  "C14": dict(
   category="exploration", design_ref="DESIGN.md 4/C14", engine="smallscope",
-  technique="exhaustive enumeration of planner inputs (shape, source chunks, target chunks, itemsize, min/max memory) against structural invariants, with a termination horizon; end-to-end rechunks on a sub-lattice with the single-writer trace invariant",
+  technique="exhaustive enumeration of planner inputs (shape, source chunks, target chunks, itemsize, min/max memory) against structural invariants, with a termination horizon; end-to-end rechunks on a sub-lattice with the single-writer trace invariant; exhaustive request-form enumeration; history-independence sweep (all requests on one array, forwards and backwards, against fresh-array answers)",
   text="Both planner functions are called for every 1-d n<=24/40, every 2-d shape with dims<=5/8, every 3-d shape with dims<=3/4, all chunk pairs, itemsizes and memory ladders straddling the admission boundaries (1.3M / ~20M calls): explicit ValueError/NotImplementedError or a chain-continuous stage list whose every chunk fits max_mem, is positive and within the shape, whose copy regions are whole chunks of the array they write, ending in whole target chunks; rechunk_plan starts at the source and ends at the requested chunks; x.rechunk(c) preserves values and declares exactly c.",
   note="Reads need not align with source chunks (a prototype showed that demanding it would be a false alarm)."),
  "C15": dict(
   category="exploration", design_ref="DESIGN.md 4/C15", engine="smallscope",
-  technique="exhaustive enumeration of index expressions against a reference model of the index algebra; exhaustive enumeration of fusion trees evaluated symbolically through the real fuse/fuse_multiple/get_results_in_different_scope",
+  technique="exhaustive enumeration of index expressions against a reference model of the index algebra (key functions directly, and through the public blockwise over lazy arrays for every sharing of arrays between argument positions); exhaustive enumeration of fusion trees evaluated symbolically through the real fuse/fuse_multiple/get_results_in_different_scope",
   text="(i) 44k/ ~1M index-expression instances (<=3 args over <=3/4 symbols, block counts {1,2,3}, broadcast variants, contraction, new axes): every output block's keys from the real key functions equal the reference, multi-block contraction is refused. (ii) every fusion tree of depth <=2/3 over seven key-function shapes (1-1, several args, list, stream, alternating, concatenating, multi-output), every subset of fusable predecessors: the provenance term of every output block equals unfused evaluation (same functions, blocks, positions, list/iterator structure).",
   note="Symbolic arrays have one element per block; fusion eligibility decisions of the optimizer are C02's."),
  "C16": dict(
   category="exploration", design_ref="DESIGN.md 4/C16", engine="smallscope",
-  technique="exhaustive enumeration of build/plan/visualize/repr calls over the catalogue and programs with tracing stores and a flagging executor",
+  technique="exhaustive enumeration of input-construction/build/plan/visualize/repr calls over the catalogue and programs with tracing stores and a flagging executor",
   text="For every catalogue case (in-memory and Zarr inputs) and program: building, plan() optimized and not, and on a slice visualize/repr/_repr_html_/rechunk_plan enter no executor and issue no set/delete/data-chunk read on any store; the listed eager entry points (compute, eager store/to_zarr, __array__/__bool__/__int__/__float__/__complex__/__index__, indexing by a cubed array) do enter an executor, their lazy twins do not.",
   note="Metadata reads of input Zarr arrays at build time are not side effects."),
  "C18": dict(
   category="exploration", design_ref="DESIGN.md 4/C18", engine="smallscope",
   technique="exhaustive enumeration of (multi-array entry point x argument position x spec field) and of a size-literal grammar against exact rational arithmetic",
-  text="88 multi-array entry points (every catalogued function with >=2 arrays, operators, index/take by array, compute/plan/visualize/store) x each position x 7 spec fields: ValueError or no returned plan containing both inputs. 3k/15k size literals: exact integer byte count or rejected. Every primitive op of every catalogued operation's plan carries the Spec's allowed_mem/reserved_mem.",
+  text="88 multi-array entry points (every catalogued function with >=2 arrays, operators, index/take by array, compute/plan/visualize/store) x each position x 7 spec fields: ValueError or no returned plan containing both inputs. 3k/58k size literals: exact integer byte count or rejected, and read identically by Spec (allowed_mem under three reserved_mem settings; reserved_mem). Every primitive op of every catalogued operation's plan carries the Spec's allowed_mem/reserved_mem.",
   note="Any exception counts as rejecting a literal."),
  "C19": dict(
   category="exploration", design_ref="DESIGN.md 4/C19", engine="smallscope",
-  technique="exhaustive enumeration of operations x nine configuration variants, comparing (phase, exception type, values)",
+  technique="exhaustive enumeration of operations x twelve configuration variants (incl. one equal Spec object per input, one of them already used), comparing (phase, exception type, values)",
   text="Every catalogued operation (2/8 multi-block geometries each) and a program slice under: global default config, explicit equal Spec, other work_dir, store object, compressor None / explicit codec, reserved_mem, threads executor, larger allowed_mem: identical acceptance and values.",
   note="Real filesystem work_dirs under a per-case scratch directory; random/empty excluded (no defined values)."),
 })
@@ -115,7 +115,7 @@ CHECKS.update({
   note="Pool bounded to 5 one-dimensional arrays; states are canonicalised on property-relevant fields only."),
  "C20": dict(
   category="model_checking", design_ref="DESIGN.md 4/C20", engine="histbfs",
-  technique="exhaustive enumeration of two-interpreter scenarios (producer in a fresh interpreter, receiver with k pre-created names) x uses x optimize, judged against NumPy",
+  technique="exhaustive enumeration of two-interpreter scenarios (producer in a fresh interpreter, receiver with k pre-created names) x uses x optimize x (sender computed before shipping | receiver computed before loading), judged against NumPy",
   text="4 producer programs x receivers (same process; fresh interpreter having created k in {0,1,3} / {0..4,6} arrays and ops) x uses (alone, local-d, d-local, d with a second copy, d1-d2 from two producers, d with its original) x optimize: computed values equal NumPy.",
   note="One interpreter per scenario side; both sides use an equal Spec."),
 })
